@@ -30,6 +30,12 @@ type expiryCase struct {
 	waitPast time.Duration
 }
 
+// c06Params: parameter dictionaries the verifier passes for the cases of that label
+var c06Params = map[string]map[string]string{
+	"marker completed by a parameter": {"EXPIRY": "2999-01-01T00:00:00Z"},
+	"year completed by a parameter":   {"YY": "99"},
+}
+
 func expiryCatalogue(c *core.Ctx) []expiryCase {
 	f := func(d time.Duration) func() string {
 		return func() string { return time.Now().UTC().Add(d).Format("2006-01-02T15:04:05Z") }
@@ -47,6 +53,10 @@ func expiryCatalogue(c *core.Ctx) []expiryCase {
 		expiryCase{"year 1970", fixed("1970-01-01T00:00:00Z"), "past", 0},
 		expiryCase{"year 9999", fixed("9999-12-31T23:59:59Z"), "future", 0},
 		expiryCase{"year 2999", fixed("2999-06-15T12:00:00Z"), "future", 0},
+		// an expiry that only becomes a date when the verifier's parameters are substituted into it:
+		// expiry is no substituted field; the signed value is not a timestamp
+		expiryCase{"marker completed by a parameter", fixed("{EXPIRY}"), "malformed", 0},
+		expiryCase{"year completed by a parameter", fixed("29{YY}-01-01T00:00:00Z"), "malformed", 0},
 		expiryCase{"empty", fixed(""), "malformed", 0},
 		expiryCase{"null text", fixed("null"), "malformed", 0},
 		expiryCase{"date only", fixed("2999-01-01"), "malformed", 0},
@@ -207,7 +217,7 @@ func runC06(c *core.Ctx) {
 					if ec.waitPast > 0 {
 						time.Sleep(ec.waitPast)
 					}
-					a := VerifyArgs{Layout: md, Keys: keys, LinkDir: linkDir, Cwd: finalDir}
+					a := VerifyArgs{Layout: md, Keys: keys, LinkDir: linkDir, Cwd: finalDir, Params: c06Params[ec.label]}
 					if runDir {
 						a.RunDir, a.Cwd = gen.RunDirName, root
 					}
@@ -309,7 +319,7 @@ func init() {
 	core.Register(&core.Property{
 		ID:    "C06",
 		Level: "exploration",
-		Rule: "catalogue of expiry strings: now -/+ {2s,5s,1min,1h,1d,1y,100y}, 'valid when built, verified 2.2 s after it expired', years 0001/1970/2999/9999, 22 malformed forms (empty, date only, offsets, separators, impossible dates, trailing/leading text, other date layouts), arguable forms (leap second, lower case, fraction, one-digit fields: run but not judged); thorough: + 2000 random strings and every single-character mutation of a valid timestamp; x 2 wrappers x 2 entry points x {layout object as signed in memory, layout loaded from its file} x verifier time zones {UTC, America/Los_Angeles, Asia/Tokyo, Pacific/Kiritimati} (by worker) x {flat chain with inspection, valid root over an expired/undated sublayout, expired/undated root over a valid sublayout with its own inspection, layout without steps and inspections, a delegated step delivered as sublayouts by two functionaries of which the second copy is expired/undated (8 verifications each)}. Oracle: call bracket [t0,t1] sampled around the call (no clock of our own), marker files, trace automaton. " +
+		Rule: "catalogue of expiry strings: now -/+ {2s,5s,1min,1h,1d,1y,100y}, 'valid when built, verified 2.2 s after it expired', years 0001/1970/2999/9999, 24 malformed forms (a marker / a partial year that the verifier's parameters would complete to a future date, empty, date only, offsets, separators, impossible dates, trailing/leading text, other date layouts), arguable forms (leap second, lower case, fraction, one-digit fields: run but not judged); thorough: + 2000 random strings and every single-character mutation of a valid timestamp; x 2 wrappers x 2 entry points x {layout object as signed in memory, layout loaded from its file} x verifier time zones {UTC, America/Los_Angeles, Asia/Tokyo, Pacific/Kiritimati} (by worker) x {flat chain with inspection, valid root over an expired/undated sublayout, expired/undated root over a valid sublayout with its own inspection, layout without steps and inspections, a delegated step delivered as sublayouts by two functionaries of which the second copy is expired/undated (8 verifications each)}. Oracle: call bracket [t0,t1] sampled around the call (no clock of our own), marker files, trace automaton. " +
 			"non-trivial = the layout signature phase passed; distinct = (class, label, wrapper, entry point, nesting)",
 		Assumptions: []string{"an expiry inside the call bracket [t0,t1] is inconclusive", "strings of arguable well-formedness (leap second, lower-case t/z, fractional seconds, one-digit fields) are not judged", "a rejected control with a future expiry is inconclusive (observation floor on accepted controls)"},
 		Workers:     func(string) int { return 16 },
